@@ -107,10 +107,46 @@ def max_capacity_part(chk, rnd):
     chk.note_cases("session-max-capacity[matrix-rel, oracle only]", [l[:200] for l in lines], [l[:200] for l in lines], sample_n=0, dist={"L": [s.meta["cap"] for s in scns]})
 
 
+def naive_capacity_part(chk, rnd):
+    """single-erasure back-end: the parity header written by start_update announces min((slot - data offset) / size, 16384)
+       fragments for every accepted geometry, incl. the largest fragment count, and parses"""
+    from . import v1
+    scns, want = [], []
+    geos = [(17664, 1, 1), (17664, 8, 32), (17664 + 16384, 1, 16384), (17664 + 16384, 1, 16383), (17408 + 40000, 2, 16384), (17408 + 40000, 40, 1000), (20480, 256, 12), (20480, 100, 30)]
+    for slot, sz, n in geos + [(session.DRO + rnd.choice([512, 4096, 20000]), rnd.choice([1, 3, 40, 128]), None) for _ in range(10 if chk.quick() else 200)]:
+        slot = -(-slot // 256) * 256
+        room = (slot - session.DRO) // sz
+        if room < 1: continue
+        if n is None: n = rnd.randint(1, min(room, 16384))
+        if n > room or n > 16384: continue
+        s = session.Scn(4, slot, 256)
+        s.add("start %d %d" % (sz, n)); s.add("hdrs")
+        scns.append(s); want.append(min(room, 16384))
+    lines = [s.line() for s in scns]
+    impl = [v1.STRIP.sub("", x) for x in core.run_stream(core.build_harness("naive"), "session", lines)]
+    for s, l, raw, w in zip(scns, lines, impl, want):
+        out = session.parse_out(raw)
+        if len(out) != 2:
+            chk.failures.append(core.Failure("harness produced no / truncated result", "session", "naive", l, raw, key="crash")); break
+        if not out[0][0].startswith("ok"):
+            chk.failures.append(core.Failure("[single-erasure back-end] start_update on an acceptable geometry returned %s" % out[0][0], "session", "naive", l, raw[:800], key="c15")); continue
+        par = [bytes.fromhex(h) for h in out[1][0].split(",") if h != "-" and bytes.fromhex(h)[0] == 1]
+        if not par:
+            chk.failures.append(core.Failure("[single-erasure back-end] no parseable parity header after start_update", "session", "naive", l, raw[:800], key="c15"))
+        elif int.from_bytes(par[0][12:16], "little") != w:
+            chk.failures.append(core.Failure("[single-erasure back-end] parity header announces %d fragments, the slot holds %d" % (int.from_bytes(par[0][12:16], "little"), w), "session", "naive", l, raw[:800], key="c15"))
+    chk.note_cases("naive-capacity[oracle only]", lines, lines, sample_n=1, dist={"cases": len(lines)})
+    try:
+        chk.correspond("naive-capacity", "naive", lines, impl, core.run_stream(core.build_fvm(), "naive", lines))
+    except core.BuildError as e:
+        chk.broken.append(("correspondence", "naive-capacity[model build]", {"detail": str(e)[-1000:]}))
+
+
 def run(chk):
     chk.prove()
     rnd = random.Random(chk.seed)
     max_capacity_part(chk, random.Random(chk.seed + 15))
+    naive_capacity_part(chk, random.Random(chk.seed + 151))
     scns = geometry_cases(rnd, chk.quick()) + capacity_cases(rnd, chk.quick()) + loss_cases(rnd, chk.quick())
     # losses repaired by coded fragments with high numbers / wire indices beyond 16384 (every coded fragment counts towards the rank)
     from . import c07
@@ -162,5 +198,5 @@ def run(chk):
     chk.note_cases("session-geometry", lines, nt, sample_n=2, dist=dist)
     return chk.finish(level="proof",
         rule="geometry: (size, count) over u32 boundary classes x products around the slot limit x slot sizes 17664 B .. 64 KiB (thorough: 256 KiB, 1 MiB); capacity: every size 1..256 at several slot sizes incl. 256 KiB; "
-             "loss: exactly L and L+1 data fragments missing (L = persisted capacity, 1 <= L <= ~70; thorough up to several hundred), late data bringing the count down; losses repaired by coded fragments numbered 8375 .. 30000; max-capacity: a 512 KiB slot whose capacity is the maximum 2047, exactly 2047 fragments lost (release build, oracle only - the model needs ~l^3 steps); non-trivial = accepted geometries and loss scenarios; distinct by case text",
+             "loss: exactly L and L+1 data fragments missing (L = persisted capacity, 1 <= L <= ~70; thorough up to several hundred), late data bringing the count down; naive-capacity: parity header of the single-erasure back-end for accepted geometries up to 16384 fragments; losses repaired by coded fragments numbered 8375 .. 30000; max-capacity: a 512 KiB slot whose capacity is the maximum 2047, exactly 2047 fragments lost (release build, oracle only - the model needs ~l^3 steps); non-trivial = accepted geometries and loss scenarios; distinct by case text",
         trusted=core.TRUSTED_COMMON + ["C15: slot sizes below 4 GiB (the code compares in u32)"])
